@@ -20,4 +20,14 @@ SPEC = {
     "floors": {"quick": {"scenario.copy_ctor": 200, "scenario.move_assign": 200, "scenario.self_copy_assign": 100, "scenario.serialize": 200,
                          "state.source_upper_bound_stale": 100, "cmp.deserialize_truncated": 1000, "steps.divergent": 5000,
                          "_distinct_nontrivial": 1000}},
+    "manifest": {
+        "text": "Runtime monitor under ASan+UBSan: copies, assignments (incl. self), moves, swaps, binary and text serialisation of Simplex_trees in reachable "
+                "states (after removals/prunings, stale dimension caches, emptied trees) must yield objects observationally equal to the model through every "
+                "read interface, and independent: both objects are then driven through different histories with the other one fully re-checked after every "
+                "step and after the destruction of its sibling; every wrong buffer length must be refused by an exception with no out-of-bounds read "
+                "(exact-size heap buffers under ASan). Memory-safety/UB monitoring of every other check of the suite is provided by building all harnesses "
+                "with ASan+UBSan (and TSan for the thread workloads).",
+        "note": "ASan is a red-zone tool (misses intra-object and pool-recycled accesses); MSan unusable here (uninstrumented libstdc++/boost); trusted: oracle::ComplexModel",
+        "technique": "runtime monitoring: AddressSanitizer/UBSan/TSan + reference-model oracle on source, copy and moved-from objects along divergent histories",
+    },
 }
